@@ -7,10 +7,10 @@ CONSTANTS
  Defect = "none"
  MaxTime = 4
  MaxAtt = 2
- ShutTOs <- TOBoth
+ ShutTOs <- TONever
  PCancel = {}
  Gates = {FALSE}
- DL1 <- DL24
+ DL1 <- DL2
  DL2s <- DLN3
  W3 <- WT
  Res <- R3
